@@ -28,6 +28,19 @@ def budget(tier):
 @st.composite
 def _cases(draw, tier):
     shape = draw(st.sampled_from(['any', 'any', 'few_lecturers', 'many_lecturers']))
+    if pct(draw) < 3:
+        # hundreds of first-side agents, few second-side ones (id widths, wrap-around)
+        mp = draw(st.sampled_from(['hr', 'spa', 'sm']))
+        n1 = draw(st.sampled_from([256, 257, 300]))
+        v = {'mp': mp, 'numinst': 1, 'n1': n1, 'pmin': 1, 'pmax': draw(st.sampled_from([1, 2, 3])),
+             'twopl': True, 'seed': uni(draw, 0, 9999)}
+        if mp != 'sm':
+            v['n2'] = draw(st.sampled_from([3, 6, 12]))
+            v['uq'] = n1
+        if mp == 'spa':
+            v['n3'] = draw(st.sampled_from([2, 4]))
+            v['luq'] = n1
+        return {'v': v, 'prior': None}
     big = (30, 12, 10) if tier == 'thorough' else (12, 8, 8)
     if shape == 'any':
         v = draw(genargs.legal_vectors(nmax=big, types=['sm', 'hr', 'spa'], numinst_max=2,
@@ -68,7 +81,7 @@ def run_case(case):
         return Result(False, ['skipped:rejected'])
     na = genargs.na_of(v)
     nt = False
-    labels = set(['mp=' + v['mp']])
+    labels = set(['mp=' + v['mp']] + ['n1>=256'] * (v['n1'] >= 256))
     for idx, text in enumerate(genargs.read_outputs(outdir, v['numinst'])):
         try:
             I, _ = refmodel.parse(text, na)
